@@ -202,7 +202,7 @@ def parseStmtPy : Nat → List Tok → Option (PS × List Tok)
         match pyTest (fuelFor r1) r1 with
         | some (hi, .p .rpar :: .p .colon :: .newline :: .indent :: r2) =>
           match parseStmtsPy f r2 with
-          | some (body, .dedent :: r3) => if body.isEmpty then none else some (.loop i lo hi body, r3)
+          | some (body, .dedent :: r3) => some (.loop i lo hi body, r3)
           | _ => none
         | _ => none
       | _ => none
@@ -223,6 +223,7 @@ def parseStmtsPy : Nat → List Tok → Option (List PS × List Tok)
     match ts with
     | [] => some ([], [])
     | .dedent :: _ => some ([], ts)
+    | .id "pass" :: .newline :: r => parseStmtsPy f r
     | _ =>
       match parseStmtPy f ts with
       | some (s, r) =>
